@@ -12,7 +12,7 @@ from . import common as cm
 
 ID = "C02"
 LEVEL = "model_checking"
-RULE = ("every connected labelled multigraph topology of the listed levels x assignment of component kinds (passive "
+RULE = ("every connected labelled multigraph topology of the listed levels x assignment of component kinds (plus ladder circuits of 2..5 (thorough 8) sections over seven source/series/shunt patterns with every ground position; passive "
         "kinds and dc/ac sources, ideal and lossy) x orientation, values from the prime palette by branch position, "
         "analysed at every frequency of an alphabet placed around the source frequencies (0, on a source frequency, "
         "+-res/2, +-2res, 2x, unrelated) with both resolutions, as peak and RMS phasors and as DC solution; judged when "
@@ -84,6 +84,9 @@ def shards(tier):
         for ti in range(len(topos)):
             for ch in sp.chunks(range(nk), per):
                 out.append(("Cq(%d,%d)|K%d" % (n, b, len(kinds)), (n, b, ti, kinds, ch[0], ch[-1] + 1)))
+    for fi in range(len(FAMILIES)):
+        for nsec in range(2, (8 if tier == "thorough" else 5) + 1):
+            out.append(("ladder families (up to %d sections)" % (8 if tier == "thorough" else 5), ("fam", fi, nsec, tier)))
     return out
 
 
@@ -117,9 +120,48 @@ def class_wp(topo, kt, w):
     return r
 
 
+FAMILIES = [("Vac", "R", "C"), ("Vac", "L", "C"), ("Iac", "C", "R"), ("Vacl", "L", "R"), ("Vdc", "R", "L"), ("Vach", "Z", "G"), ("Idcl", "lamp", "Y")]
+LONG_PLAIN = ["0", "1", "2", "3", "4", "5", "6", "7", "8", "9", "10"]
+LONG_ODD = ["a", "B", "9", "10", "_x", "Zz", "b2", "0x", "C", "c", "100"]
+
+
+def family_circuit(src, ser, shu, nsec, labels, ground_idx, flip):
+    comps = []
+    items = [(src, 1, 0)]
+    for k in range(nsec):
+        items.append((ser, k + 1, k + 2))
+        items.append((shu, k + 2, 0))
+    for k, (kn, a, b_) in enumerate(items):
+        ckind, params = KTAB[kn](sp.P_REAL[k % len(sp.P_REAL)])
+        n1, n2 = labels[a], labels[b_]
+        if flip and k % 2 == 1:
+            n1, n2 = n2, n1
+        comps.append([ckind, "%s%02d" % (("x", "y")[k % 2], k) if flip else "e%02d" % k, [n1, n2], params])
+    comps.insert(len(comps) // 2, ["ground", "gnd", [labels[ground_idx]], {}])
+    return {"components": comps}, tuple(kn for kn, _, _ in items)
+
+
+def run_family(desc, res):
+    _, fi, nsec, tier = desc
+    src, ser, shu = FAMILIES[fi]
+    for labels in (LONG_PLAIN, LONG_ODD):
+        for flip in (False, True):
+            for g in range(nsec + 2):
+                d, kt = family_circuit(src, ser, shu, nsec, labels, g, flip)
+                ws = freq_alphabet(kt)
+                wp = [w for w in ws if rn.well_posed(rc.netlist(d, w, RES_DEFAULT))]
+                res["evals"] += len(ws)
+                bump(res["skipped"], "ill_posed_at_w", len(ws) - len(wp))
+                if wp:
+                    judge(d, wp, res)
+
+
 def run_shard(desc):
-    n, b, ti, kinds, k0, k1 = desc
     res = new_result()
+    if desc[0] == "fam":
+        run_family(desc, res)
+        return res
+    n, b, ti, kinds, k0, k1 = desc
     topo = sp.topologies(n, b)[ti]
     allk = list(itertools.product(kinds, repeat=b))
     for kt in allk[k0:k1]:
